@@ -163,6 +163,11 @@ func c02Origins(a *An, df *DecodeFacts, tr *extracted, trCall *Visit, hctx *Ctx)
 	if ph, ok := nameArg.(*ssa.Phi); ok {
 		edges = ph.Edges
 	}
+	wdTbl, pathFld := "wd", "path"
+	if tf := findTables(a); tf != nil {
+		wdTbl = tf.wdTable.Name()
+		_, pathFld = tf.watchFields()
+	}
 	for _, e := range edges {
 		p := stripIDs(hctx.path(e))
 		// expected: <wdTable>[<record>.Wd].path  or that + "/" + trimmed bytes
@@ -177,7 +182,7 @@ func c02Origins(a *An, df *DecodeFacts, tr *extracted, trCall *Visit, hctx *Ctx)
 				base, rest = inner[:i], inner[i+len("+(c:\"/\"+"):]
 			}
 		}
-		if strings.HasSuffix(base, ".Wd].path") && strings.Contains(base, ".wd[") && strings.HasPrefix(base, "recv.") {
+		if strings.HasSuffix(base, ".Wd]."+pathFld) && strings.Contains(base, "."+wdTbl+"[") && strings.HasPrefix(base, "recv.") {
 			if rest == "" {
 				okp, form = true, "watch.path"
 			} else {
